@@ -586,3 +586,215 @@ def QUIET_OFF(o):
 
 
 CHECKS['C01'] = c01
+
+
+# ----------------------------------------------------------------------------------------- C10
+def commb_values(rng, tier):
+    """MB fields generated from physical values over their ranges, boundaries of every plausibility limit,
+    single status bit cleared, single reserved bit set, random"""
+    V = []
+    n = 6 if tier == 'quick' else 120
+    for _ in range(n):
+        V.append(mb50(rng.randint(-284, 284), rng.randrange(2048), rng.randint(50, 300), rng.randint(-511, 511) or 3, rng.randint(50, 250)))
+        V.append(mb60(rng.randrange(1, 2048), rng.randint(1, 1023), rng.randint(1, 250), rng.randint(-187, 187) or 2, rng.randint(-187, 187) or -2))
+        V.append(mb40(rng.randint(1, 4095), rng.randint(1, 4095), rng.randint(1, 4095), st48=rng.getrandbits(1), st54=rng.getrandbits(1),
+                      modes=rng.getrandbits(3), src=rng.getrandbits(2)))
+    # plausible in the sense of C10 (gs/tas close): must decode
+    for _ in range(n):
+        gs = rng.randint(60, 250)
+        V.append(mb50(rng.randint(-280, 280) or 1, rng.randrange(1, 2048), gs, rng.randint(-500, 500) or 1, max(1, min(250, gs + rng.randint(-90, 90)))))
+    # both turn / climb directions explicitly
+    for tar in (-200, -1, 1, 200):
+        for roll in (-200, -1, 1, 200):
+            V.append(mb50(roll, 700, 220, tar, 210))
+    for br in (-150, -1, 1, 150):
+        V.append(mb60(600, 280, 195, br, br))
+    # boundaries of every plausibility limit
+    for roll in (-285, -284, 284, 285):
+        V.append(mb50(roll, 100, 200, 4, 190))
+    for gs in (300, 301):
+        V.append(mb50(10, 100, gs, 4, 250))
+    for tas in (250, 251):
+        V.append(mb50(10, 100, 200, 4, tas))
+    V += [mb50(10, 100, 249, 4, 150), mb50(10, 100, 250, 4, 150), mb50(10, 100, 100, 4, 199), mb50(10, 100, 100, 4, 200)]
+    for mach in (250, 251):
+        V.append(mb60(100, 300, mach, 5, 5))
+    for r in (-188, -187, 187, 188):
+        V += [mb60(100, 300, 200, r, 3), mb60(100, 300, 200, 3, r)]
+    # zero value fields, single status bit cleared
+    for k in range(5):
+        st = [1] * 5
+        st[k] = 0
+        V += [mb50(10, 100, 200, 4, 190, st=tuple(st)), mb60(100, 300, 200, 5, 5, st=tuple(st))]
+    for k in range(3):
+        st = [1] * 3
+        st[k] = 0
+        V.append(mb40(2000, 2000, 2132, st=tuple(st)))
+    V += [mb40(2000, 2000, 2132, rsv40=1), mb40(2000, 2000, 2132, rsv40=128), mb40(2000, 2000, 2132, rsv52=1), mb40(2000, 2000, 2132, rsv52=2),
+          mb40(0, 2000, 2132), mb40(2000, 0, 2132), mb40(2000, 2000, 0), mb40(4095, 1, 4095), mb40(1, 4095, 1),
+          mb50(0, 100, 200, 4, 190), mb50(10, 0, 200, 4, 190), mb50(10, 100, 0, 4, 190), mb50(10, 100, 200, 0, 190), mb50(10, 100, 200, 4, 0),
+          mb60(0, 300, 200, 5, 5), mb60(100, 0, 200, 5, 5), mb60(100, 300, 0, 5, 5), mb60(100, 300, 200, 0, 5), mb60(100, 300, 200, 5, 0),
+          mb50(-512, 100, 200, -512, 190), mb60(100, 300, 200, -512, -512)]
+    # explicit registers
+    for cs in ('KLM1023', 'A', '', 'ZZ99ZZ99'):
+        V.append(mb20(callsign_codes(cs)))
+    V.append(mb20([rng.getrandbits(6) for _ in range(8)]))
+    V += [mb30(1, 0), mb30(0, 1), mb30(1, 1), mb30(0, 0), mb30(1, 0, rest=rng.getrandbits(28))]
+    V += [pack([(0x10, 8), (rng.getrandbits(48), 48)]), pack([(0x10, 8), (0, 48)])]
+    # capability reports
+    for sub in range(8):
+        V.append(mb17(1, sub & 1, (sub >> 1) & 1, (sub >> 2) & 1))
+    V += [mb17(0, 1, 1, 1), mb17(1, 1, 1, 1, low=1), mb17(1, 1, 1, 1, low=1 << 27), mb17(1, 1, 1, 1, low=1 << 30)]
+    for _ in range(n * 2):
+        V.append(bits_of(rng.getrandbits(56), 56))
+    V += [bits_of(0, 56), bits_of((1 << 56) - 1, 56)]
+    return V
+
+
+def c10(tier):
+    rep = Report('C10', tier)
+    rng = random.Random(vlib.seed())
+    V = commb_values(rng, tier)
+    groups = []
+    setups = [
+        lambda a: [short(4, enc_alt13(30000), a)],
+        lambda a: [df11(0, a)],
+        lambda a: [df11(3, a)],
+        lambda a: [df11(4, a)],
+        lambda a: [df11(5, a)],
+        lambda a: [df17(5, a, me_opstatus(2))],
+        lambda a: [df11(5, a), df11(0, a)],
+    ]
+    adverts = [None] + [mb17(1, s & 1, (s >> 1) & 1, (s >> 2) & 1) for s in range(8)]
+    k = 0
+    for opts in OPTSETS:
+        for su in setups:
+            for adv in adverts:
+                k += 1
+                a = 0x3c4000 + k
+                g = [reset(opts)]
+                for l in su(a):
+                    g.append(run1(l))
+                if adv is not None:
+                    g.append(run1(long_(20, enc_alt13(31000), adv, a)))
+                vs = V if (tier == 'thorough' and k % 5 == 0) else rng.sample(V, 14 if tier == 'quick' else 60)
+                for mb in vs:
+                    g.append(run1(long_(rng.choice([20, 21]), rng.getrandbits(13) | 16, mb, a, rng.getrandbits(14))))
+                groups.append(g)
+        # first-frame context and late adverts: data, then DF11, then advert, then the same data again
+        for j in range(6 if tier == 'quick' else 60):
+            a = 0x3c8000 + k * 100 + j
+            mbs = rng.sample(V, 6)
+            g = [reset(opts)]
+            for mb in mbs:
+                g.append(run1(long_(20, enc_alt13(32000), mb, a)))
+            g.append(run1(df11(5, a)))
+            for mb in mbs:
+                g.append(run1(long_(21, enc_squawk(4, 3, 2, 1), mb, a)))
+            g.append(run1(long_(20, enc_alt13(32000), mb17(1, 1, 1, 1), a)))
+            for mb in mbs:
+                g.append(run1(long_(20, enc_alt13(32000), mb, a)))
+            groups.append(g)
+    conform(rep, 'C10', groups, maxlen=2500)
+    rep.rule = ('DF20/DF21 replies whose MB is generated from physical values (roll +-50, track 0..360, rate +-16, GS/TAS to their limits '
+                'and across |GS-TAS|=200, heading, IAS, Mach to 1.0, rates +-6000, selected altitude, QNH 800..1210), boundary values of '
+                'every plausibility limit, one status bit cleared, one reserved bit set, zero value fields, BDS 1,0/2,0/3,0/1,7 and random MB; '
+                'after 7 capability states (no DF11, DF11 CA 0/3/4/5, DF17 CA5, CA5 then CA0) x {no advert, BDS 1,7 advertising each subset of '
+                '4,0/5,0/6,0} x option sets {none,-U,-R,-U -R}; also data before/after DF11 and advert. Non-trivial = a register that must be '
+                'decoded, or a fully valid register arriving while the gate is closed (spec-decided)')
+    vlib.nt_floor(rep, 300)
+    return rep
+
+
+CHECKS['C10'] = c10
+
+
+# ----------------------------------------------------------------------------------------- C08
+def nl_boundaries():
+    import math
+    out = []
+    for nl in range(2, 60):
+        out.append(math.degrees(math.acos(math.sqrt((1 - math.cos(math.pi / 30)) / (1 - math.cos(2 * math.pi / nl))))))
+    return out
+
+
+def c08_positions(rng, tier):
+    P = []
+    bnd = nl_boundaries()
+    # inside every NL zone, both hemispheres
+    edges = [0.0] + sorted(bnd)
+    for i in range(len(edges) - 1):
+        mid = (edges[i] + edges[i + 1]) / 2
+        for sgn in (1, -1):
+            P.append((sgn * mid, rng.uniform(-180, 180)))
+    # both sides of zone boundaries (pairs may straddle)
+    for b in (bnd if tier == 'thorough' else bnd[::6]):
+        for off in (-0.003, -0.0005, 0.0005, 0.003):
+            for sgn in (1, -1):
+                P.append((sgn * (b + off), rng.uniform(-180, 180)))
+    # equator, antimeridian, prime meridian, near the poles' limit
+    P += [(0.0004, 10.0), (-0.0004, -10.0), (0.001, 179.9995), (0.001, -179.9995), (45.0, 179.9999), (-45.0, -179.9999), (51.0, 0.0002),
+          (51.0, -0.0002), (86.9, 20.0), (-86.9, -120.0), (86.99, 100.0), (52.2572, 3.91937)]
+    n = 20 if tier == 'quick' else 3000
+    for _ in range(n):
+        P.append((rng.uniform(-86.5, 86.5), rng.uniform(-180, 180)))
+    return P
+
+
+def c08(tier):
+    rep = Report('C08', tier)
+    rng = random.Random(vlib.seed())
+    P = c08_positions(rng, tier)
+    delays = [0, 3000, 9000, 9900, 10000, 10100, 11000, 60000]
+    observers = [None, '90,0', '-90, 0', ' 90 , 0 ', '48.5,11.25']
+    groups = []
+    k = 0
+    for (lat, lon) in P:
+        k += 1
+        a = 0x3d0000 + (k % 0xffff)
+        opts = [[], ['-U']][k % 2]
+        obs = observers[k % len(observers)]
+        first_odd = (k // 2) % 2
+        d = delays[(k // 4) % len(delays)]
+        dlat, dlon = rng.uniform(-0.004, 0.004), rng.uniform(-0.004, 0.004)
+        p1 = cpr_encode(lat, lon, first_odd)
+        p2 = cpr_encode(lat + dlat, lon + dlon, 1 - first_odd)
+        p3 = cpr_encode(lat + 2 * dlat, lon + 2 * dlon, first_odd)
+        mk = lambda p, odd: df17(5, a, me_airpos(rng.choice([9, 11, 18]), 0, enc_alt12(rng.randrange(0, 40000, 25)), odd, p[0], p[1]))
+        g = [reset(opts, obs=obs)]
+        g.append(run1(mk(p1, first_odd)))                   # single frame: nothing shown
+        if k % 3 == 0:                                      # other frames interleaved
+            g.append(run1(df17(5, a, me_velocity(1, 0, 100, 1, 200, 0, 10))))
+            g.append(run1(short(4, enc_alt13(30000), a)))
+        if d:
+            g.append(tick(d))
+        g.append(run1(mk(p2, 1 - first_odd)))               # pair complete (or too late / straddling)
+        d2 = delays[(k // 32) % len(delays)]
+        if d2:
+            g.append(tick(d2))
+        g.append(run1(mk(p3, first_odd)))                   # next frame pairs with the previous one
+        if k % 5 == 0:
+            g.append(run1(mk((0, p3[1]), 1 - first_odd)))   # a zero CPR field counts as not received
+            g.append(run1(mk(p2, 1 - first_odd)))
+        groups.append(g)
+    # exact geometries for the distance column: lon = 90 deg is exactly representable in zones 59/58
+    for j, (lat, obs) in enumerate([(5.0, '1,90'), (5.0, '-7.5, 90'), (-3.0, '10,-90'), (7.0, '0,-90'), (5.0, '90,0'), (-5.0, '-90,123')]):
+        a = 0x3e0000 + j
+        for opts in ([], ['-U']):
+            g = [reset(opts, obs=obs)]
+            g.append(run1(df17(5, a, me_airpos(11, 0, enc_alt12(10000), 0, *cpr_encode(lat, 90.0, 0)))))
+            g.append(run1(df17(5, a, me_airpos(11, 0, enc_alt12(10000), 1, *cpr_encode(lat, 90.0, 1)))))
+            g.append(run1(df17(5, a, me_airpos(11, 0, enc_alt12(10000), 0, *cpr_encode(lat + 0.001, 90.0, 0)))))
+            groups.append(g)
+    conform(rep, 'C08', groups, maxlen=2500)
+    rep.rule = ('true positions stratified over every NL zone in both hemispheres, both sides of %s zone boundaries (straddling pairs), equator, '
+                'antimeridian, prime meridian, |lat| up to 86.99, %d random; both parities first; second frame displaced by < 0.004 deg; delays '
+                '{0,3,9,9.9,10,10.1,11,60} s between the frames (stamp shifting); a third frame; zero CPR fields; velocity / DF4 frames interleaved; '
+                '-U on/off; observers none / "90,0" / "-90, 0" / " 90 , 0 " / general, and exact same-meridian / opposite-meridian geometries. '
+                'Non-trivial = airborne-position frame arriving when the other parity slot is filled and the verdict (decode/keep) is determined'
+                % ('all 58' if tier == 'thorough' else '10', 20 if tier == 'quick' else 3000))
+    vlib.nt_floor(rep, 100)
+    return rep
+
+
+CHECKS['C08'] = c08
